@@ -48,6 +48,19 @@ add("C20", "exploration",
     "Trusted: the C19 operator oracle; the reference interpreter (a 15-line loop).",
     "grammar-based program generation + differential testing against a reference interpreter + round-trip", "DESIGN.md#c20")
 
+add("C03", "exploration",
+    "Generated (secret, external nullifier, message id, two signals) with five forced variants (recoverable pair, identical shares, equal x / different y, different external nullifier, different message id), messages assembled from zerokit's own proof values with and without the signal tail, both argument orders; oracle: reference nullifier H(H(s,e,m)) equality relation, recovered bytes == secret, empty result across epochs, error/empty (never a panic) on degenerate pairs; plus real generate_rln_proof message pairs.",
+    "Trusted: reference Poseidon/Keccak (self-tested); Keccak collision resistance.",
+    "property-based testing with an algebraic inverse oracle (share interpolation) + forced degenerate classes", "DESIGN.md#c03")
+add("C04", "exploration",
+    "Generated circuit-accepted witnesses (boundary field values, direction-bit patterns incl. high levels) with a three-way comparison: proof_values_from_witness == BigUint RLN formulas over the reference Poseidon == positions 1..5 of the bundled graph's witness vector.",
+    "Trusted: reference Poseidon (frozen circomlib constants + known answers).",
+    "property-based differential testing (three-way: native formulas / reference model / circuit witness)", "DESIGN.md#c04")
+add("C10", "exploration",
+    "Generated values of every encodable type; zerokit encoder vs an independent encoder, zerokit decoder on independent encodings, independent decoder on zerokit encodings, JSON / byte->JSON->byte round trips, bigint-JSON decimal strings; every truncation and 1..40-byte extension of three witness encodings (exhaustive) plus one generated truncation/extension per generated witness must not decode.",
+    "Trusted: codec_ref.rs written from the documented layouts (shares no code with rln::utils).",
+    "round-trip and differential property testing against an independent codec", "DESIGN.md#c10")
+
 ALL = [f"C{i:02d}" for i in range(1, 21)]
 PENDING_REASON = "check not built yet in this revision of /verif (planned, see DESIGN.md section 2); not claimed until its machinery exists"
 manifest = {
